@@ -20,7 +20,26 @@ Record result := { status : Z;              (* process exit status as returned b
 Definition starts_with_dash (a : string) : bool :=
   match a with String c _ => Ascii.eqb c "-"%char | EmptyString => false end.
 
+(* std::stoull(argv[++i]) (base 10): leading isspace characters, an optional sign, then at least one digit; the value of
+   the digit run must fit 64 bits (std::out_of_range otherwise); what follows the digits is ignored *)
+Definition is_space (c : ascii) : bool := let n := nat_of_ascii c in Nat.eqb n 32 || (Nat.leb 9 n && Nat.leb n 13).
+Definition digit_val (c : ascii) : option Z :=
+  let n := Z.of_nat (nat_of_ascii c) in if Z.leb 48 n && Z.leb n 57 then Some (n - 48)%Z else None.
+Fixpoint skip_spaces (s : string) : string :=
+  match s with String c r => if is_space c then skip_spaces r else s | EmptyString => s end.
+Fixpoint digits_val (s : string) (acc : Z) (seen : bool) : option Z :=
+  match s with
+  | String c r => match digit_val c with Some d => digits_val r (acc * 10 + d)%Z true | None => if seen then Some acc else None end
+  | EmptyString => if seen then Some acc else None
+  end.
+Definition stoull_ok (s : string) : bool :=
+  let s1 := skip_spaces s in
+  let s2 := match s1 with String c r => if Ascii.eqb c "+"%char || Ascii.eqb c "-"%char then r else s1 | EmptyString => s1 end in
+  match digits_val s2 0%Z false with Some v => Z.leb v 18446744073709551615 | None => false end.
+
 Section Tools.
+  (* whether the named file can be opened for writing (the directory exists, the name is not a directory, ...) *)
+  Variable writable : string -> bool.
   (* the tools' work, abstract: Some = accepted with these file bytes, None = a diagnostic (hexutil::Error) *)
   Variable assemble : bytes -> option bytes.
   Variable compile : bytes -> option bytes.
@@ -86,7 +105,8 @@ Section Tools.
                          if a_instrs a then ok f              (* emitProgramText; return 0 *)
                          else match a_out a with
                               | None => fail f                (* std::string(nullptr): std::logic_error, return 1 *)
-                              | Some o => ok (fs_set f o bin)
+                              | Some o => if writable o then ok (fs_set f o bin)
+                                          else fail f         (* "could not open output file" *)
                               end
                      end
             end
@@ -128,7 +148,10 @@ Section Tools.
                     match a_mode a with
                     | MTokens => ok f
                     | MListing => match compile src with None => fail f | Some _ => ok f end
-                    | MBinary => match compile src with None => fail f | Some bin => ok (fs_set f o bin) end
+                    | MBinary => match compile src with
+                                 | None => fail f
+                                 | Some bin => if writable o then ok (fs_set f o bin) else fail f
+                                 end
                     end
                 end
             end
@@ -144,7 +167,10 @@ Section Tools.
         if is_any x ["-d"; "--dump"] then hexsim_args r file true trace
         else if is_any x ["-t"; "--trace"] then hexsim_args r file dump true
         else if String.eqb x "--max-cycles" then
-          match r with [] => SError (* std::stoull(nullptr) *) | _ :: r' => hexsim_args r' file dump trace end
+          match r with
+          | [] => SError                                       (* std::stoull(nullptr) *)
+          | v :: r' => if stoull_ok v then hexsim_args r' file dump trace else SError   (* invalid_argument / out_of_range *)
+          end
         else if is_any x ["-h"; "--help"] then SHelp
         else match file with None => hexsim_args r (Some x) dump trace | Some _ => SError end
     end.
@@ -175,7 +201,8 @@ Section Tools.
     | x :: r =>
         if is_any x ["-h"; "--help"] then RHelp
         else if is_any x ["-t"; "--trace"] then xrun_args r file true
-        else if String.eqb x "--max-cycles" then match r with [] => RError | _ :: r' => xrun_args r' file trace end
+        else if String.eqb x "--max-cycles" then
+          match r with [] => RError | v :: r' => if stoull_ok v then xrun_args r' file trace else RError end
         else if starts_with_dash x then RError
         else match file with None => xrun_args r (Some x) trace | Some _ => RError end
     end.
@@ -191,6 +218,7 @@ Section Tools.
             match compile src with
             | None => fail f
             | Some bin =>
+                if negb (writable "a.bin") then fail f else
                 let f' := fs_set f "a.bin" bin in
                 match simulate bin input with
                 | Some (v, o) => {| status := host_status v; diagnostic := false; files := f'; out := o |}
